@@ -14,4 +14,6 @@ for id in $ids; do
   line=$(echo "$out" | grep -E '^VIOLATION' | head -1)
   echo "$id: exit=$rc ${line:-NOT DETECTED}"
 done
+# the generated Lean modules follow /repo again
+python3 $V/tools/extract.py >/dev/null
 git -C /repo status --short | head -3
